@@ -112,7 +112,8 @@ vh::Outcome run_tw(const vh::Case& c) {
                     } else {
                         // ---------------------------------------------------- out-of-range index
                         lbl_oor = true;
-                        unsigned bad = 16 + (unsigned)op.a * 1000u;
+                        static const unsigned huge[4] = {0x80000000u, 0xffffffffu, 0x7fffffffu, 16u};
+                        unsigned bad = (op.b & 2) ? huge[op.a % 4] : 16 + (unsigned)op.a * 1000u;      // also indices that do not fit in an int
                         bool threw = false;
                         try { if (op.b & 1) { gc::TripWireDetector d(bad); (void)d; } else { gc::TripWireTrigger t(bad); (void)t; } }
                         catch (const std::out_of_range&) { threw = true; }
